@@ -1,5 +1,6 @@
 pub mod c01;
 pub mod ctx;
+pub mod wide;
 pub mod c03;
 pub mod c04;
 pub mod c05;
